@@ -672,7 +672,12 @@ class Transpiler(object):
         :param math_element: <math> ``etree.Element`` object
         :return: A list of SymPy expressions.
         """
-        return self.transpile(math_element)
+        expressions = self.transpile(math_element)
+        for expression in expressions:
+            # A bare operator or qualifier element yields a class, a function, a list or a tuple
+            if not isinstance(expression, sympy.Basic):
+                raise ValueError('Not an expression: %s in %s' % (expression, _dump_node(math_element)))
+        return expressions
 
     def transpile(self, element):
         """Convert MathML to Sympy expressions.
@@ -758,8 +763,12 @@ class Transpiler(object):
         result = self.transpile(node)
         if len(result) > 1:
             expression = result[0](*(result[1:]))
-        else:
+        elif len(result) == 1 and isinstance(result[0], sympy.Basic):
+            # Tolerated: <apply> around a single value
             expression = result[0]
+        else:
+            # An operator (a class or a function) without operands, a qualifier, or nothing at all
+            raise ValueError('Expecting an operator followed by at least one operand in ' + _dump_node(node))
         return expression
 
     def _piecewise_handler(self, node):
